@@ -241,19 +241,94 @@ def check_cfgs(rep: Report, cfgs: List[Dict[str, Any]], modes: List[str], rng: r
     return skipped_fx
 
 
+def check_modules(rep: Report, modes: List[str], rng: random.Random) -> None:
+    """Every public module through torch.compile as a MODULE (parameters reached as attributes), called three times: shape A,
+    another batch size (TorchDynamo recompiles / goes dynamic: the scales are Python arithmetic on shapes), shape A again; each
+    call compared with eager on the same input.  Graph breaks are counted (a broken graph runs partly eagerly)."""
+    import unit_scaling as uu
+    from unit_scaling import _modules as M
+
+    def ids(b, s, v):
+        return torch.randint(0, v, (b, s), generator=torch.Generator().manual_seed(b * 131 + s))
+
+    def flt(*shape):
+        return torch.randn(*shape, generator=torch.Generator().manual_seed(sum(shape) * 17 + len(shape)))
+
+    fam = [
+        ("Linear(8,12,bias,gmean)", lambda: uu.Linear(8, 12, bias=True, constraint="gmean"), lambda b: flt(b, 3, 8)),
+        ("LinearReadout(8,5)", lambda: uu.LinearReadout(8, 5), lambda b: flt(b, 8)),
+        ("Conv1d(4,6,3,padding=1,circular)", lambda: uu.Conv1d(4, 6, 3, padding=1, padding_mode="circular"), lambda b: flt(b, 4, 9)),
+        ("Conv1d(4,4,2,stride=2,groups=2)", lambda: uu.Conv1d(4, 4, 2, stride=2, groups=2, bias=True), lambda b: flt(b, 4, 8)),
+        ("LayerNorm(8,affine)", lambda: uu.LayerNorm(8, elementwise_affine=True), lambda b: flt(b, 3, 8)),
+        ("RMSNorm(8,affine)", lambda: uu.RMSNorm(8, elementwise_affine=True), lambda b: flt(b, 3, 8)),
+        ("Embedding(11,6,max_norm)", lambda: uu.Embedding(11, 6, max_norm=1.0), lambda b: ids(b, 4, 11)),
+        ("Embedding(11,6,padding_idx)", lambda: uu.Embedding(11, 6, padding_idx=0), lambda b: ids(b, 4, 11)),
+        ("GELU(tanh,mult)", lambda: uu.GELU(mult=0.5, approximate="tanh"), lambda b: flt(b, 7)),
+        ("SiLU(mult)", lambda: uu.SiLU(mult=2.0, constraint=None), lambda b: flt(b, 7)),
+        ("Softmax(dim=-1,mult)", lambda: uu.Softmax(dim=-1, mult=0.5), lambda b: flt(b, 9)),
+        ("MLP(8,2)", lambda: uu.MLP(8, 2), lambda b: flt(b, 3, 8)),
+        ("MHSA(8,2,causal)", lambda: uu.MHSA(8, 2, is_causal=True, dropout_p=0.0), lambda b: flt(b, 5, 8)),
+        ("TransformerLayer(8,2)", lambda: uu.TransformerLayer(8, 2, mhsa_tau=0.3, mlp_tau=0.7, is_causal=True, dropout_p=0.0), lambda b: flt(b, 5, 8)),
+        ("TransformerDecoder(8,11,2,2)", lambda: uu.TransformerDecoder(8, vocab_size=11, layers=2, heads=2, dropout_p=0.0), lambda b: ids(b, 5, 11)),
+        ("DepthSequential(Linear,Linear)", lambda: M.DepthSequential(uu.Linear(8, 12), uu.Linear(12, 8)), lambda b: flt(b, 8)),
+    ]
+    breaks = 0
+    for label, ctor, mk in fam:
+        torch.manual_seed(7)
+        mod = ctor()
+        for p_ in mod.parameters():     # trained-looking parameters (biases are zero-initialised)
+            with torch.no_grad():
+                p_.add_(torch.randn(p_.shape, generator=torch.Generator().manual_seed(p_.numel())) * 0.3)
+
+        def run(fn, x):
+            mod.zero_grad(set_to_none=True)
+            xi = x.clone().requires_grad_() if x.is_floating_point() else x.clone()
+            y = fn(xi)
+            y = y[0] if isinstance(y, tuple) else y
+            up = torch.randn(y.shape, generator=torch.Generator().manual_seed(3))
+            y.backward(up)
+            return y.detach().clone(), ([xi.grad.clone()] if xi.is_floating_point() else []) + [None if p_.grad is None else p_.grad.clone() for p_ in mod.parameters()]
+
+        for mode in modes:
+            rep.case(("module", label, mode))
+            torch._dynamo.reset()
+            torch._dynamo.utils.counters.clear()
+            try:
+                cm = torch.compile(mod, backend=mode)
+                for call, b in enumerate((2, 3, 2)):
+                    x = mk(b)
+                    ye, ge = run(mod, x)
+                    yc, gc = run(cm, x)
+                    if not close(yc, ye, CLOSE["f32"]) or any((a is None) != (bb is None) or (a is not None and not close(a, bb, CLOSE["f32"])) for a, bb in zip(gc, ge)):
+                        rep.violation(f"module {label}: call #{call + 1} (batch {b}) under torch.compile(backend={mode}) differs from eager", {"module": label, "mode": mode, "call": call, "batch": b}, key=f"module:{mode}:{label.split('(')[0]}")
+                        break
+            except Exception as ex:
+                rep.violation(f"module {label} under torch.compile(backend={mode}) raised {type(ex).__name__}: {str(ex)[:160]}", {"module": label, "mode": mode}, key=f"module_raised:{mode}:{label.split('(')[0]}")
+            breaks += sum(torch._dynamo.utils.counters["graph_break"].values())
+    rep.extra["module_graph_breaks"] = breaks
+
+
 def check_composition(rep: Report, case_seed: int, modes: List[str]) -> None:
     make, dt0, label = composition(random.Random(case_seed))
     rep.case(("composition", case_seed))
 
     def run_mode(mode, dt):
+        """Two calls of ONE (compiled) callable: the drawn input, then another batch size (recompilation / dynamic shapes: every
+        scale is Python arithmetic on shapes).  Outputs and gradients of both calls are returned concatenated."""
         f, tens = make(dt)
-        ts = [t.detach().clone().requires_grad_() for t in tens]
         torch._dynamo.reset()
         fn = f if mode == "eager" else torch.compile(f, backend=mode)
-        torch.manual_seed(1)
-        y = fn(*ts)
-        gs = torch.autograd.grad(y, ts, allow_unused=True)
-        return y.detach(), gs
+        ys, gs = [], []
+        for call in range(2):
+            ts = [t.detach().clone().requires_grad_() for t in tens]
+            if call == 1:
+                ts[0] = torch.randn((3,) + tuple(tens[0].shape[1:]), generator=torch.Generator().manual_seed(case_seed % 1000), dtype=torch.float64).to(dt).requires_grad_()
+            torch.manual_seed(1)
+            y = fn(*ts)
+            g = torch.autograd.grad(y, ts, allow_unused=True)
+            ys.append(y.detach().reshape(-1))
+            gs += list(g)
+        return torch.cat(ys), tuple(gs)
 
     try:
         ye, ge = run_mode("eager", dt0)
@@ -295,6 +370,7 @@ def run(rep: Report, tier: str) -> None:
     modes = ["aot_eager"] + ([] if quick else ["inductor"])
     cfgs = pick_cfgs(rng, 70 if quick else 250)
     skipped_fx = check_cfgs(rep, cfgs, modes, rng)
+    check_modules(rep, modes, rng)
     # compositions and modules
     for i in range(10 if quick else 60):
         check_composition(rep, rng.randrange(1 << 30), modes)
